@@ -150,7 +150,6 @@ func goodSNum(r *Rng) string {
 	return pickS(r, sNumStrs)
 }
 
-
 // exact decimal expansion of a finite binary rational
 func exactDecimal(x *big.Float) string {
 	s := x.Text('f', 200)
